@@ -18,9 +18,12 @@ ROOT = os.path.dirname(HERE)
 sys.path.insert(0, HERE)
 from rslex import lex, match_close, test_module_start  # noqa: E402
 
-SRC = os.environ.get('VERIF_REPO_SRC', '/repo/wgsl_to_wgpu/src')
-REPLAY_DIR = os.path.join(HERE, 'replay')
-REPLAY_TARGET = os.path.join(ROOT, 'build', 'replay-target')
+REPO = os.environ.get('VERIF_REPO', '/repo')
+SRC = os.environ.get('VERIF_REPO_SRC', os.path.join(REPO, 'wgsl_to_wgpu', 'src'))
+# the three overrides below are used only by the parallel seeds driver (a private copy of the tool per worker)
+REPLAY_DIR = os.environ.get('VERIF_REPLAY_DIR', os.path.join(HERE, 'replay'))
+REPLAY_TARGET = os.environ.get('VERIF_REPLAY_TARGET', os.path.join(ROOT, 'build', 'replay-target'))
+OUT = os.environ.get('VERIF_OUT', ROOT)
 
 
 def c18_scan():
@@ -113,12 +116,13 @@ def run_replay(prop, tier, seed):
     t0 = time.time()
     env = dict(os.environ, CARGO_TARGET_DIR=REPLAY_TARGET, CARGO_NET_OFFLINE='true')
     try:
-        subprocess.run(['cp', '/repo/Cargo.lock', os.path.join(REPLAY_DIR, 'Cargo.lock')], check=False)
+        subprocess.run(['cp', os.path.join(REPO, 'Cargo.lock'), os.path.join(REPLAY_DIR, 'Cargo.lock')], check=False)
         b = subprocess.run(['cargo', 'build', '--offline', '-q'], cwd=REPLAY_DIR, env=env, stdout=subprocess.PIPE, stderr=subprocess.PIPE, text=True, timeout=600)
         if b.returncode != 0:
             return {'status': 'build-failed', 'detail': b.stderr[-1500:], 'wall_s': round(time.time() - t0, 1)}
         exe = os.path.join(REPLAY_TARGET, 'debug', 'replay')
-        out = os.path.join(ROOT, 'build', 'replay-%s.json' % prop)
+        os.makedirs(os.path.join(OUT, 'build'), exist_ok=True)
+        out = os.path.join(OUT, 'build', 'replay-%s.json' % prop)
         r = subprocess.run([exe, prop, '--seed', str(seed), '--tier', tier, '--out', out], cwd=REPLAY_DIR, env=env,
                            stdout=subprocess.PIPE, stderr=subprocess.PIPE, text=True, timeout=900 if tier == 'thorough' else 240)
         if r.returncode != 0 or not os.path.exists(out):
@@ -147,7 +151,7 @@ def run(prop, tier, seed, unit_results):
         try:
             import kani_run
             names = [h for h, p_ in kani_run.HARNESSES.items() if p_ == prop]
-            kr = kani_run.run(names)
+            kr = kani_run.run(names, src_root=REPO)
             res['report']['kani'] = kr
             res['back_end'] += ' + kani 0.68 / cbmc 6.11 (leaf harnesses)'
             for h, info in kr['harnesses'].items():
